@@ -645,6 +645,14 @@ class Gen:
                                             ("choice", [(num(1), num(F(1, 4))), (num(3), num(F(3, 4)))])])
                         rhss[j + 1] = ("poly", add(var(lvl[j]), var(lvl[j + 1])))
                         self.feat("simultaneous-assignment-with-draw")
+                    elif r.random() < 0.35:
+                        # a numeric literal as one component, whose target is READ by another component of the same tuple
+                        # (reset-and-remember: the reader must see the value from before the statement)
+                        j = r.randrange(len(lvl))
+                        k_ = r.choice([i_ for i_ in range(len(lvl)) if i_ != j])
+                        rhss[j] = ("poly", num(r.choice([0, 1, 2, -1])))
+                        rhss[k_] = ("poly", r.choice([var(lvl[j]), add(var(lvl[j]), var(lvl[k_])), add(mul(num(2), var(lvl[j])), num(1))]))
+                        self.feat("simultaneous-assignment-literal-and-reader")
                     data_stmts.append(("simult", list(lvl), rhss))
                     self.feat("simultaneous-assignment")
                 else:
